@@ -167,6 +167,7 @@ pub fn wild_layout(n: usize, nx: usize, rng: &mut Rng, sparse: bool, max_files: 
     Layout {
         files,
         xor_key: None,
+        magic_mode: if rng.chance(1, 3) { rng.range(1, 3) as u8 } else { 0 },
         extra_files,
     }
 }
@@ -223,7 +224,7 @@ impl Prop for C03 {
         "C03"
     }
     fn rule(&self) -> String {
-        "one logical chain (2..60 blocks quick, ..400 thorough; heights up to 3M) stored under 4-6 (thorough 8-12) physical layouts per scenario: blocks permuted within/across 1..40 files (thorough ..300), file numbers incl. 127/128/16511/16512/2^32/2^64-1, name padding 1..20 digits, zero padding, garbage, unindexed foreign blocks, one sparse >4GiB layout in ~1/6 scenarios, extra index keys (f,l,F,R,t,B,obfuscation key), extra directory entries; each layout run under random read chunking (1B..32KiB). Oracle: csvdump output identical across layouts (bytes) and equal to the reference model. Non-trivial = >=2 layouts succeeded and some layout stores blocks out of height order; distinct by scenario hash.".into()
+        "one logical chain (2..60 blocks quick, ..400 thorough; heights up to 3M) stored under 4-6 (thorough 8-12) physical layouts per scenario: blocks permuted within/across 1..40 files (thorough ..300), file numbers incl. 127/128/16511/16512/2^32/2^64-1, name padding 1..20 digits, zero padding, garbage, unindexed foreign blocks, one sparse >4GiB layout in ~1/6 scenarios, extra index keys (f,l,F,R,t,B,obfuscation key), extra directory entries, the record's nTx field true/0/off-by-one/garbage, the four bytes in front of each size prefix = coin magic/zeros/foreign magic/garbage; each layout run under random read chunking (1B..32KiB). Oracle: csvdump output identical across layouts (bytes) and equal to the reference model. Non-trivial = >=2 layouts succeeded and some layout stores blocks out of height order; distinct by scenario hash.".into()
     }
     fn items(&self, tier: Tier) -> u64 {
         if tier == Tier::Quick {
@@ -327,7 +328,7 @@ impl Prop for C11 {
         "C11"
     }
     fn rule(&self) -> String {
-        "twin data directories: each C03-style layout (incl. blocks >32KiB, padding so offsets are not multiples of the key length, sparse >4GiB in ~1/6) is built in plaintext and XOR-ed with a key of length 1..64 (8 most often; random, all-zero, single byte), both run for a random callback of the five under read chunk sizes chosen relative to the key period (chunk = 0,+1,-1 mod period, chunk < period, random). Oracle: outputs of the obfuscated directory identical to the plaintext one and to the reference model. Non-trivial = both twins succeeded with a non-zero key; distinct by scenario hash.".into()
+        "twin data directories: each C03-style layout (incl. blocks >32KiB, padding so offsets are not multiples of the key length, sparse >4GiB in ~1/6) is built in plaintext and XOR-ed with a key of length 1..64 (8 most often; random, all-zero, single byte, one-hot, zero prefix/suffix of any length incl. exactly the first 8 bytes), both run for a random callback of the five under read chunk sizes chosen relative to the key period (chunk = 0,+1,-1 mod period, chunk < period, random). Oracle: outputs of the obfuscated directory identical to the plaintext one and to the reference model. Non-trivial = both twins succeeded with a non-zero key; distinct by scenario hash.".into()
     }
     fn items(&self, tier: Tier) -> u64 {
         if tier == Tier::Quick {
